@@ -231,8 +231,8 @@ def compile_jobs(ctx, tier_programs, configs_per_program):
     corpus = nagarun.corpus()
     if not ctx.thorough:
         # quick tier: the shaders that exercise special paths always, plus a seeded sample of the rest
-        always = {"f16.wgsl", "mesh-shader.wgsl", "debug-symbol-simple.wgsl", "boids.wgsl", "shadow.wgsl", "atomicOps.wgsl", "control-flow.wgsl"}
-        rest = rng.fork("subset").shuffle([c for c in corpus if c[0] not in always])[:55]
+        always = {"f16.wgsl", "mesh-shader.wgsl", "debug-symbol-simple.wgsl", "boids.wgsl", "shadow.wgsl", "atomicOps.wgsl", "control-flow.wgsl", "collatz.wgsl"}
+        rest = rng.fork("subset").shuffle([c for c in corpus if c[0] not in always])[:40]
         corpus = [c for c in corpus if c[0] in always] + rest
     all_cfg = [(sm, byp, bm) for sm in range(7) for byp in (False, True) for bm in (0, 1, 2)]
     for name, src in corpus:
@@ -474,10 +474,10 @@ def run(ctx):
         if getattr(ctx, "replay", None):
             replay(ctx, tools, exe)
             return
-        n1, b1 = tie_writer(ctx, tools, exe, ctx.scale(800, 60000))
-        n2, b2 = tie_container(ctx, tools, exe, ctx.scale(150, 8000))
+        n1, b1 = tie_writer(ctx, tools, exe, ctx.scale(600, 60000))
+        n2, b2 = tie_container(ctx, tools, exe, ctx.scale(120, 8000))
         n3, b3 = tie_hash(ctx, tools, exe, ctx.scale(20, 3000))
-        ncont, ndist = tie_real_output(ctx, tools, exe, ctx.scale(28, 900), ctx.scale(1, 14))
+        ncont, ndist = tie_real_output(ctx, tools, exe, ctx.scale(21, 900), ctx.scale(1, 14))
         evaluations = ctx.cov["writer_correspondence"]["sequences"] + ctx.cov["container_correspondence"]["part_lists"] + \
             ctx.cov["hash_correspondence"]["inputs"] + ncont
         nontrivial = n1 + n2 + n3 + ndist
